@@ -171,4 +171,25 @@ def divBits (x y : UInt64) : UInt64 :=
   | _, .fin _ => inf
   | _, _ => qnan
 
+/-! ### one IEEE multiplication of two doubles -/
+
+/-- IEEE-754 `x * y` (round to nearest even): the exact product of the two exact values, rounded once -/
+def mulBits (x y : UInt64) : UInt64 :=
+  let neg := signBit x != signBit y
+  let zero : UInt64 := if neg then 0x8000000000000000 else 0
+  let inf : UInt64 := if neg then ninfBits else pinfBits
+  match decode x, decode y with
+  | .nan, _ => qnan
+  | _, .nan => qnan
+  | .fin a, .fin b =>
+      if a = 0 ∨ b = 0 then zero
+      else
+        match roundRat (if neg then -((a.natAbs * b.natAbs : Nat) : Int) else ((a.natAbs * b.natAbs : Nat) : Int))
+            (scale * scale) with
+        | .ok w => w
+        | _ => inf
+  | .fin a, _ => if a = 0 then qnan else inf
+  | _, .fin b => if b = 0 then qnan else inf
+  | _, _ => inf
+
 end Yaql.FloatRound
